@@ -114,6 +114,26 @@ def run(ck, fb):
         gc = ur.calls(re.escape(INM + 'get_current_process_range') + '$')
         w = [(bb, s) for (o, f, bb, s) in ur.field_writes() if f == 'current_range']
         ck.require(len(gc) == 1 and len(w) == 1, 'R14d', 'update_process_range:stores', ur.where(), 'the recomputed range is not stored')
+    ck.rule('R14f', 'one range, two holders: the naming actor keeps its own copy of the owner range (NamingActor.current_range, used for '
+                    'at_process_range and to take over instances). Every InnerNodeManage method that recomputes the range '
+                    '(update_process_range) can reach refresh_process_range (NamingCmd::ClusterRefreshProcessRange) afterwards, and '
+                    'refresh_process_range sends the current range')
+    callers = [b for b in fb.find('^' + re.escape(INM)) if not b.parent and b.calls(re.escape(INM + 'update_process_range') + '$')]
+    ck.floor('R14f', 'methods that recompute the owner range', len(callers), 2)
+    for b in callers:
+        fn = b.name.split('::')[-1]
+        up = b.calls(re.escape(INM + 'update_process_range') + '$')
+        rf = b.calls(re.escape(INM + 'refresh_process_range') + '$')
+        ok = bool(rf) and all(any(r.bb in cfg.reach_from(b, [u.bb]) for r in rf) for u in up)
+        ck.require(ok, 'R14f', '%s:propagates-range' % fn, b.where(),
+                   '%s recomputes InnerNodeManage.current_range but never tells the naming actor: NamingActor.current_range stays what it was, so after a '
+                   'node is marked unavailable the survivors route its keys to themselves but do not take the instances over (no heartbeat '
+                   'supervision for the services of the dead node)' % fn, 'refresh_process_range reachable after update_process_range')
+    rp = ck.body(INM + 'refresh_process_range', 'R14f')
+    if rp:
+        sd = util.sends(rp, r'NamingCmd$', 'ClusterRefreshProcessRange')
+        ck.require(len(sd) >= 1 and all(cfg.origin_fields(rp, a['ops'][0])[-1:] == ['current_range'] or Taint(rp, place_src=field_place_src('current_range')).op_tainted(a['ops'][0]) for (s0, m0, v0, a) in sd),
+                   'R14f', 'refresh_process_range:sends-current', rp.where(), 'refresh_process_range does not send current_range to the naming actor')
     ck.rule('R14e', 'ownership use: NamingActor::update_instance computes at_process_range = current_range.is_range(get_hash_value(key)) and '
                     'clears from_cluster / client_id only when in range and not gRPC')
     nu = ck.body(NA + 'update_instance', 'R14e')
